@@ -35,6 +35,8 @@ pub enum Form {
     InlineComment,
     BlockComment,
     NestedBlockComment,
+    /// `----`: a complete comment without text (X.680 12.6.3)
+    EmptyInlineComment,
 }
 
 /// bodies that are only legal in one comment style: `--` means nothing inside `/* */`
@@ -51,7 +53,7 @@ fn body_for(form: Form, k: usize) -> &'static str {
 }
 
 impl Form {
-    pub const ALL: [Form; 10] = [
+    pub const ALL: [Form; 11] = [
         Form::Space,
         Form::Tab,
         Form::TwoSpaces,
@@ -62,6 +64,7 @@ impl Form {
         Form::InlineComment,
         Form::BlockComment,
         Form::NestedBlockComment,
+        Form::EmptyInlineComment,
     ];
     fn class(self) -> &'static str {
         match self {
@@ -83,6 +86,7 @@ impl Form {
             Form::InlineComment => format!(" -- {body} -- "),
             Form::BlockComment => format!(" /* {body} */ "),
             Form::NestedBlockComment => format!(" /* outer /* {body} */ outer */ "),
+            Form::EmptyInlineComment => " ---- ".to_string(),
         }
     }
 }
@@ -175,7 +179,7 @@ pub fn run(tier: Tier, seed: u64, replay: Option<String>) -> i32 {
     ctx.max_replays = 60;
     ctx.rule = "generator outputs (token lists known): every token boundary individually x layout forms (quick: tab, LF, `-- c` to end of line, `/* c */`, plus the \
                 remaining forms on every 3rd boundary; thorough: all of space, tab, two spaces, LF, CRLF, nothing where the tokens stay separable, `-- c` EOL, \
-                `-- c --`, `/* c */`, nested `/* /* c */ */`), comment bodies with quotes, braces, keywords, END, non-ASCII, * and /, `--` inside block comments, `/*` and `*/` inside line comments; plus random subsets of \
+                `-- c --`, `/* c */`, nested `/* /* c */ */`, the empty comment `----`), comment bodies with quotes, braces, keywords, END, non-ASCII, * and /, `--` inside block comments, `/*` and `*/` inside line comments; plus random subsets of \
                 boundaries re-laid-out at once; oracle: same Ok/Err status, token-identical bindings with #[doc] removed, equal warning multisets; one evaluation = one \
                 re-layout compared with the base layout; non-trivial = the boundary lies inside an assignment and the form differs from the base layout; distinct by variant text"
         .into();
